@@ -105,7 +105,8 @@ def strategy(draw, tier="quick"):
     if mode == "ragged" and RAGGED[fmt]:
         kinds = [k for k in RAGGED[fmt] if _ragged_applicable(k, cell, time)]
         if kinds:
-            case["ragged"] = {"after": draw(st.integers(1, len(comp))), "kind": draw(st.sampled_from(kinds))}
+            case["ragged"] = {"after": draw(st.integers(1, len(comp))), "kind": draw(st.sampled_from(kinds)),
+                              "then": draw(st.sampled_from([None, "repeat", "regular"]))}
             if fmt == "h5" and draw(st.booleans()):
                 case["ragged"]["reopen_append"] = True   # the ragged write is the first one after re-opening with mode='a'
     elif mode == "crash" and fmt in LIVE:
@@ -153,6 +154,10 @@ def enumerate_cases(tier):
                     for after in (1, 2, 3):
                         yield {"fmt": fmt, "na": 10, "comp": [2, 1, 3], "cell": c, "time": t, "tric": False, "seed": 0,
                                "ragged": {"after": after, "kind": kind}}
+                        if after < 3:
+                            for then in ("repeat", "regular"):
+                                yield {"fmt": fmt, "na": 10, "comp": [2, 1, 3], "cell": c, "time": t, "tric": False, "seed": 0,
+                                       "ragged": {"after": after, "kind": kind, "then": then}}
                         if fmt == "h5":
                             yield {"fmt": fmt, "na": 10, "comp": [2, 1, 3], "cell": c, "time": t, "tric": False, "seed": 0,
                                    "ragged": {"after": after, "kind": kind, "reopen_append": True}}
@@ -281,6 +286,24 @@ def run_case(case):
                     except Exception as e:  # a refusal is what the property demands
                         raised = type(e).__name__
                     labels.append("ragged:" + kind)
+                    then = rag.get("then")
+                    if raised is not None and then == "repeat" and kind == "natoms":
+                        # the refusal must not change the writer: the same wrong write is refused again
+                        try:
+                            _write(fmt, fh, tr, lo2, hi2, cell, time, natoms=case["na"] - 1)
+                            viol.append(("%s/ragged-%s/accepted-on-repeat" % (fmt, kind), "the same ragged write, refused once, was accepted the second time"))
+                        except Exception:
+                            pass
+                        labels.append("ragged-repeated")
+                    if raised is not None and then in ("regular", "repeat") and hi < n:
+                        # ... and a regular write with the schema of the file is still accepted afterwards
+                        hi3 = min(n, hi + 2)
+                        try:
+                            _write(fmt, fh, tr, hi, hi3, cell, time)
+                            accepted = hi3
+                            labels.append("regular-write-after-refusal")
+                        except Exception as e:
+                            viol.append(("%s/ragged-%s/regular-write-refused-afterwards" % (fmt, kind), "%s: %s" % (type(e).__name__, str(e)[:160])))
                     break
         finally:
             fh.close()
